@@ -84,6 +84,43 @@ Theorem C17_stratification_preserved : forall m sh R P V mask pts out v n,
   stratified n (map (stratum_scaled n) (column v (vectors sh out))).
 Proof. exact generate_stratification_preserved. Qed.
 
+(* the hypotheses "generate ... = Some out" above are satisfiable for every method, shape, mask and shared
+   flag: on a draw of the right size (R'*P*D numbers / R'*P points of dimension D) generate never fails *)
+Theorem C17_generate_total : forall m sh R P V mask rw,
+  mask_len V mask -> raw_ok m (sample_R sh R * P) (sample_dim V mask) rw ->
+  exists out, generate m sh R P V mask rw = Some out.
+Proof. exact generate_total. Qed.
+
+(* _perturb_variables calls every sampler that has a variable exactly once ... *)
+Theorem C17_sampler_order_spec : forall a,
+  NoDup (sampler_order (Some a)) /\ forall k, In k (sampler_order (Some a)) <-> In (Z.of_nat k) a.
+Proof. intros a. split; [apply sampler_order_NoDup | intros k; apply sampler_order_In]. Qed.
+
+(* ... in the order of first appearance in gradient.samplers: appending an entry appends its sampler to the
+   calling order, or changes nothing when the entry is negative or its sampler appeared before *)
+Theorem C17_sampler_order_first_appearance : forall a s,
+  sampler_order (Some (a ++ [s])) = sampler_order (Some a) ++ (if skip_entry s a then [] else [Z.to_nat s]).
+Proof. exact sampler_order_snoc. Qed.
+
+(* end to end (sum over the samplers in _perturb_variables): every free variable that has a sampler gets
+   exactly that sampler's sample, a fixed variable or one without sampler (-1) gets the literal sum 0 *)
+Theorem C17_sum_over_samplers : forall (cfg : nat -> method * bool) R P V a varmask outs tot r p v,
+  mask_len V varmask -> length a = V -> v < V ->
+  Forall2 (fun k o => exists rw, generate (fst (cfg k)) (snd (cfg k)) R P V (get_mask k (Some a) varmask) rw = Some o)
+          (sampler_order (Some a)) outs ->
+  total_samples (map Some outs) = Some tot ->
+  (forall k, handled varmask v = true -> nth v a (-1)%Z = Z.of_nat k ->
+     exists i o, nth_error (sampler_order (Some a)) i = Some k /\ nth_error outs i = Some o /\
+                 (ent tot r p v == ent o r p v)%Q) /\
+  (handled varmask v = false \/ (nth v a (-1) < 0)%Z -> (ent tot r p v == 0)%Q).
+Proof. exact perturbation_sum. Qed.
+
+(* perturbed_variables = variables + magnitudes * samples, entry by entry *)
+Theorem C17_perturbed_variables : forall x mag samples res r p v blk vec,
+  perturb x mag samples = Some res -> nth_error samples r = Some blk -> nth_error blk p = Some vec ->
+  (ent res r p v == nth v x 0 + nth v mag 0 * ent samples r p v)%Q.
+Proof. exact perturb_ent. Qed.
+
 (* non-vacuity: a 2 x 2 x 3 case with a mask; the second variable is not handled; points of a
    two-dimensional Latin hypercube with n = 4 keep their strata *)
 Example C17_example :
@@ -101,6 +138,28 @@ Proof.
   apply (Permutation_cons_app [0%Z; 1%Z; 2%Z] [] 3%Z). apply Permutation_refl.
 Qed.
 
+(* non-vacuity of the end-to-end statements: gradient.samplers = [1; -1; 0; 1] with the last variable fixed;
+   sampler 1 is called first; variable 0 gets sampler 1's sample, variable 2 sampler 0's, variables 1 and 3 nothing *)
+Example C17_example_sum :
+  let a := [1; -1; 0; 1]%Z in
+  let vm := Some [true; true; true; false] in
+  let o1 := generate Uniform false 1 1 4 (get_mask 1 (Some a) vm) (RawStats [Q_ 1 2]) in
+  let o0 := generate Lhs false 1 1 4 (get_mask 0 (Some a) vm) (RawQmc [[Q_ 1 4]]) in
+  sampler_order (Some a) = [1; 0] /\
+  match o1, o0 with
+  | Some s1, Some s0 =>
+      match total_samples [Some s1; Some s0] with
+      | Some tot => (ent tot 0 0 0 == Q_ 1 2 /\ ent tot 0 0 1 == 0 /\ ent tot 0 0 2 == Q_ (-1) 2 /\ ent tot 0 0 3 == 0)%Q /\
+                    match perturb [1; 1; 1; 1]%Q [Q_ 1 8; Q_ 1 8; Q_ 1 4; Q_ 1 8]%Q tot with
+                    | Some res => (ent res 0 0 2 == Q_ 7 8 /\ ent res 0 0 3 == 1)%Q
+                    | None => False
+                    end
+      | None => False
+      end
+  | _, _ => False
+  end.
+Proof. cbv zeta. split; [reflexivity|]. vm_compute. repeat split; reflexivity. Qed.
+
 Print Assumptions C17_shape.
 Print Assumptions C17_unhandled_zero.
 Print Assumptions C17_mask_spec.
@@ -113,3 +172,8 @@ Print Assumptions C17_range.
 Print Assumptions C17_range_qmc.
 Print Assumptions C17_range_stats.
 Print Assumptions C17_stratification_preserved.
+Print Assumptions C17_generate_total.
+Print Assumptions C17_sampler_order_spec.
+Print Assumptions C17_sampler_order_first_appearance.
+Print Assumptions C17_sum_over_samplers.
+Print Assumptions C17_perturbed_variables.
